@@ -71,6 +71,14 @@ deriving Repr
 
 instance : Inhabited (Res α) := ⟨.err⟩
 
+def Res.isErr : Res α → Bool
+  | .err => true
+  | _ => false
+
+def Res.isOk : Res α → Bool
+  | .ok _ => true
+  | _ => false
+
 /-! ### encoder -/
 
 def Fields.length : Fields → Nat
@@ -284,12 +292,15 @@ def parseTagAndLength (b : Bytes) : Res Tal :=
           if l0 ≤ 127 then .ok ⟨cls, constructed, tag, l0, off + 1⟩
           else
             let n := l0 % 128
-            if n > 3 then .err
+            if n > 8 then .err
             else if n = 0 then .err
             else if off + 1 + n > b.length then .err
             else
               match sub b (off + 1) (off + 1 + n) with
-              | .ok ds => .ok ⟨cls, constructed, tag, beValue ds 0, off + 1 + n⟩
+              | .ok ds =>
+                -- `val < 0 || val > int64(len(bytes))` on the int64 accumulated from at most 8 octets
+                if beValue ds 0 ≥ 9223372036854775808 ∨ beValue ds 0 > b.length then .err
+                else .ok ⟨cls, constructed, tag, beValue ds 0, off + 1 + n⟩
               | .err => .err
               | .panic => .panic
         | .err => .err
@@ -432,37 +443,40 @@ def setAt : Vals → Nat → Val → Vals
   | .cons _ r, 0, v => .cons v r
   | .cons x r, n + 1, v => .cons x (setAt r n v)
 
+/-- the element carries the tag its type and parameters call for -/
+def tagOk (t : Ty) (p : Params) (tal : Tal) : Bool :=
+  match p.tagNumber with
+  | some n => tal.cls = 2 ∧ tal.tag = n
+  | none => match expectedTag p (stripPtr t) with
+    | some e => tal.cls = 0 ∧ tal.tag = e
+    | none => true
+
+def needsUnwrap (t : Ty) (p : Params) : Bool := p.tagNumber.isSome && p.explicit && !isChoiceTy t
+
+/-- EXPLICIT unwrapping: the element proper is the content of the context tag; it is parsed and checked again -/
+def enterInner (t : Ty) (p : Params) (b : Bytes) (tal : Tal) : Res (Bytes × Params × Tal) :=
+  match sub b tal.off (tal.off + tal.len) with
+  | .ok inner =>
+    (match parseTagAndLength inner with
+     | .ok tal' =>
+       if tal'.off + tal'.len > inner.length then .err
+       else if tagOk t { p with tagNumber := none, explicit := false } tal' then
+         .ok (inner, { p with tagNumber := none, explicit := false }, tal')
+       else .err
+     | .err => .err
+     | .panic => .panic)
+  | .err => .err
+  | .panic => .panic
+
 /-- header checks common to every ParseField invocation: parse the header, bound check, tag check,
     EXPLICIT unwrapping.  Returns the (possibly unwrapped) octets, parameters and header. -/
 def enter (t : Ty) (p : Params) (b : Bytes) : Res (Bytes × Params × Tal) :=
   match parseTagAndLength b with
   | .ok tal =>
     if tal.off + tal.len > b.length then .err
-    else
-      let tagOk : Bool :=
-        match p.tagNumber with
-        | some n => tal.cls = 2 ∧ tal.tag = n
-        | none => match expectedTag p (stripPtr t) with
-          | some e => tal.cls = 0 ∧ tal.tag = e
-          | none => true
-      if ¬ tagOk then .err
-      else if p.tagNumber.isSome ∧ p.explicit ∧ ¬ isChoiceTy t then
-        match sub b tal.off (tal.off + tal.len) with
-        | .ok inner =>
-          let p' := { p with tagNumber := none, explicit := false }
-          (match parseTagAndLength inner with
-           | .ok tal' =>
-             if tal'.off + tal'.len > inner.length then .err
-             else
-               let ok' : Bool := match expectedTag p' (stripPtr t) with
-                 | some e => tal'.cls = 0 ∧ tal'.tag = e
-                 | none => true
-               if ok' then .ok (inner, p', tal') else .err
-           | .err => .err
-           | .panic => .panic)
-        | .err => .err
-        | .panic => .panic
-      else .ok (b, p, tal)
+    else if !tagOk t p tal then .err
+    else if needsUnwrap t p then enterInner t p b tal
+    else .ok (b, p, tal)
   | .err => .err
   | .panic => .panic
 
